@@ -187,7 +187,7 @@ def regression_cases():
 def run(tier, seed):
     t0 = time.time()
     exe = core.build("rel")
-    n = 330 if tier == "quick" else 9000
+    n = 330 if tier == "quick" else 5000
     ev = make_eval(exe)
     s0, f0 = core.pmap_cases(ev, regression_cases())
     stats, fails = core.hyp_search(strategy(tier != "quick"), ev, n, seed)
